@@ -6,6 +6,8 @@ from .units.m import UnitM
 from .units.s import UnitS
 from .units.w import UnitW
 from .units import w_replay
+from .units.k import UnitK
+from .units import k_replay
 from .units import r_replay
 
 
@@ -156,6 +158,32 @@ PROPS['C15'] = {
                     'iterators replaced by an unconstrained Vec are finite'],
 }
 
+
+def c14_witness(pid, fails, repo):
+    res = k_replay.search(repo)
+    out = {'found': bool(res['mismatches']), 'keywords_run_on_real_code': res['cases']}
+    if res['mismatches']:
+        out['input'] = res['mismatches'][0]
+        out['more'] = res['mismatches'][1:8]
+    if res.get('error'):
+        out['error'] = res['error']
+    return out
+
+
+PROPS['C14'] = {
+    'units': [UnitK], 'level': 'proof', 'design_ref': 'DESIGN.md 4.14', 'witness': c14_witness,
+    'scope': 'keyword half only: field.rs::rename_keywords and as_field_name, for ALL strings, against the edition-2024 strict and '
+             'reserved keyword lists (weak keywords are legal identifiers and may stay)',
+    'level_text': 'Deductive proof (Verus/Z3) over the real `match` on string literals: a non-keyword is returned unchanged; a strict or '
+                  'reserved keyword is respelled to something that is not a keyword, and the raw form r#k is used only for keywords that may '
+                  'be raw (not self/Self/crate/super); as_field_name never yields a keyword. Exhaustive over the keyword set and total over all other strings.',
+    'level_note': 'Trusted: &str extensionality axiom (equal character sequences are equal strings) and reveal_strlit of the literals; the '
+                  'Inflector stand-in (snake case is an uninterpreted total function). NOT covered: the injection half of C14 (schema text '
+                  'interpolated into string literals / comments / attributes goes through format!, whose output is opaque to Verus) and type, '
+                  'module, operation and envelope names, which do not go through rename_keywords.',
+    'assumptions': ['keyword lists in contracts/keywords.json transcribe the Rust reference (edition 2024)'],
+}
+
 PLANNED = 'claimed in DESIGN.md but the check is not built yet at this commit (listed here so that no unbuilt check is advertised)'
 NOT_APPLICABLE = {
     'C01': 'Compilability of a whole emitted file is decided by rustc name resolution/type checking and yaserde_derive proc-macro expansion; no pre/postcondition of a zeep function entails it and Verus cannot load the dependency crates (DESIGN 4.1).',
@@ -166,7 +194,7 @@ NOT_APPLICABLE = {
     'C17': 'Process-level observables (exit status, panics as error path, clap, File::create effects); no function result to attach a postcondition to and no file-system model in Verus/Kani (DESIGN 4.17).',
     'C18': 'Send/Sync are auto traits decided by rustc\'s trait solver over the real reqwest future types; neither verifier has a notion of auto traits (DESIGN 4.18).',
     'C02': PLANNED, 'C05': PLANNED, 'C08': PLANNED, 'C09': PLANNED, 'C10': PLANNED,
-    'C13': PLANNED, 'C14': PLANNED,
+    'C13': PLANNED,
 }
 NOTES = ('All checks: ./check <id> [--tier quick|thorough]; exit 0 ok, 1 VIOLATION, 2 inconclusive (lost anchor / unsupported '
          'construct / solver limit / vacuity guard) which is never an alarm. Known findings: /verif/known_findings.json. '
